@@ -272,9 +272,7 @@ func (b *Biscuit) Seal(rng io.Reader) (*Biscuit, error) {
 
 	toSignAlgorithm := make([]byte, 4)
 	binary.LittleEndian.PutUint32(toSignAlgorithm[0:], uint32(lastBlock.NextKey.Algorithm.Number()))
-	toSign := append(lastBlock.Block[:], toSignAlgorithm...)
-	toSign = append(toSign, lastBlock.NextKey.Key[:]...)
-	toSign = append(toSign, lastBlock.Signature[:]...)
+	toSign := signedPayload(lastBlock.Block, toSignAlgorithm, lastBlock.NextKey.Key, lastBlock.Signature)
 
 	signature := ed25519.Sign(privateKey, toSign)
 
@@ -337,6 +335,19 @@ func WithRootPublicKeys(keysByID map[uint32]ed25519.PublicKey, defaultKey *ed255
 	}
 }
 
+// signedPayload returns block ‖ algorithm ‖ key ‖ extra in a freshly allocated
+// buffer. The stored block bytes must never be appended to directly: when they
+// have spare capacity (as after Unmarshal) that writes into memory shared with
+// every other user of the token.
+func signedPayload(block, algorithm, key, extra []byte) []byte {
+	payload := make([]byte, 0, len(block)+len(algorithm)+len(key)+len(extra))
+	payload = append(payload, block...)
+	payload = append(payload, algorithm...)
+	payload = append(payload, key...)
+	payload = append(payload, extra...)
+	return payload
+}
+
 func (b *Biscuit) authorizerFor(root ed25519.PublicKey, opts ...AuthorizerOption) (Authorizer, error) {
 	currentKey := root
 
@@ -348,8 +359,7 @@ func (b *Biscuit) authorizerFor(root ed25519.PublicKey, opts ...AuthorizerOption
 	algorithm := make([]byte, 4)
 	binary.LittleEndian.PutUint32(algorithm[0:], uint32(b.container.Authority.NextKey.Algorithm.Number()))
 
-	toVerify := append(b.container.Authority.Block[:], algorithm...)
-	toVerify = append(toVerify, b.container.Authority.NextKey.Key[:]...)
+	toVerify := signedPayload(b.container.Authority.Block, algorithm, b.container.Authority.NextKey.Key, nil)
 
 	if ok := ed25519.Verify(currentKey, toVerify, b.container.Authority.Signature); !ok {
 		return nil, ErrInvalidSignature
@@ -367,8 +377,7 @@ func (b *Biscuit) authorizerFor(root ed25519.PublicKey, opts ...AuthorizerOption
 
 		algorithm := make([]byte, 4)
 		binary.LittleEndian.PutUint32(algorithm[0:], uint32(block.NextKey.Algorithm.Number()))
-		toVerify := append(block.Block[:], algorithm...)
-		toVerify = append(toVerify, block.NextKey.Key[:]...)
+		toVerify := signedPayload(block.Block, algorithm, block.NextKey.Key, nil)
 
 		if ok := ed25519.Verify(currentKey, toVerify, block.Signature); !ok {
 			return nil, ErrInvalidSignature
@@ -409,9 +418,7 @@ func (b *Biscuit) authorizerFor(root ed25519.PublicKey, opts ...AuthorizerOption
 
 			algorithm := make([]byte, 4)
 			binary.LittleEndian.PutUint32(algorithm[0:], uint32(lastBlock.NextKey.Algorithm.Number()))
-			toVerify := append(lastBlock.Block[:], algorithm...)
-			toVerify = append(toVerify, lastBlock.NextKey.Key[:]...)
-			toVerify = append(toVerify, lastBlock.Signature[:]...)
+			toVerify := signedPayload(lastBlock.Block, algorithm, lastBlock.NextKey.Key, lastBlock.Signature)
 
 			if ok := ed25519.Verify(currentKey, toVerify, signature); !ok {
 				return nil, errors.New("biscuit: invalid last signature")
